@@ -36,7 +36,9 @@ func init() {
 		}
 		pprof.Lookup("heap").WriteTo(f, 0)
 		f.Close()
-		fmt.Fprintf(os.Stderr, "heapprof: %d goroutines\n", runtime.NumGoroutine())
+		var ms runtime.MemStats
+		runtime.ReadMemStats(&ms)
+		fmt.Fprintf(os.Stderr, "heapprof: %d goroutines; HeapSys=%dMB HeapInuse=%dMB HeapReleased=%dMB HeapIdle=%dMB Sys=%dMB NumGC=%d\n", runtime.NumGoroutine(), ms.HeapSys>>20, ms.HeapInuse>>20, ms.HeapReleased>>20, ms.HeapIdle>>20, ms.Sys>>20, ms.NumGC)
 		g, _ := os.Create(file + ".goroutines")
 		pprof.Lookup("goroutine").WriteTo(g, 1)
 		g.Close()
